@@ -25,18 +25,14 @@ theorem sLParts_bool (ty : Bytes) (ops : List ELPart) (cur orig : GoVal) :
     generalize sLPart op cur orig = r
     cases r with
     | ok v =>
-      cases v with
-      | bool n b =>
-        cases n with
-        | false =>
-          simp only []
-          split
+      simp only []
+      split
+      · split
+        · exact okBool_isBool _
+        · split
           · exact okBool_isBool _
-          · split
-            · exact okBool_isBool _
-            · exact ih
-        | true => exact okBool_isBool _
-      | _ => exact okBool_isBool _
+          · exact ih
+      · exact okBool_isBool _
     | _ => simp [Out.isBoolOrNotOk]
 
 theorem sLogic_bool (l : ELogic) (cur orig : GoVal) : (sLogic l cur orig).isBoolOrNotOk := by
@@ -50,15 +46,18 @@ def specFold (isAnd : Bool) : List Bool → Bool
 
 /-- C03 (value half): if every operand evaluates to a plain bool, an AND/OR group is the conjunction/disjunction,
     for operand lists of any length -/
+@[simp] theorem normalizeValue_bool (m b : Bool) : normalizeValue (.bool m b) = .bool false b := by
+  simp [normalizeValue]
+
 theorem sLParts_truth (isAnd : Bool) (tv : ELPart → Bool) (cur orig : GoVal) :
-    ∀ (ops : List ELPart), (∀ op ∈ ops, sLPart op cur orig = .ok (.bool false (tv op))) →
+    ∀ (ops : List ELPart), (∀ op ∈ ops, ∃ m, sLPart op cur orig = .ok (.bool m (tv op))) →
     sLParts (if isAnd then tyAnd else tyOr) ops cur orig = okBool (specFold isAnd (ops.map tv)) := by
   intro ops
   induction ops with
   | nil => intro _; cases isAnd <;> simp [sLParts, specFold, tyAnd, tyOr, okBool]
   | cons op rest ih =>
     intro h
-    have hop := h op List.mem_cons_self
+    obtain ⟨m, hop⟩ := h op List.mem_cons_self
     have hrest := ih (fun o ho => h o (List.mem_cons_of_mem _ ho))
     unfold sLParts
     rw [hop]
